@@ -48,9 +48,9 @@ def eps_compare(rng, tier):
                            "label": "%r|%r|%r" % (eps, p, q)}
 
 
-def _mk_ind(costs):
+def _mk_ind(costs, vector=None):
     from artap.individual import Individual
-    x = Individual([float(c) for c in costs[:-1]] or [0.0])
+    x = Individual(vector if vector is not None else ([float(c) for c in costs[:-1]] or [0.0]))
     x.costs_signed = list(costs)
     return x
 
@@ -59,21 +59,32 @@ def _mk_ind(costs):
 def archive_add(rng, tier):
     from artap.archive import Archive
     from artap.operators import ParetoDominance, EpsilonDominance
-    n = 150 if tier == "quick" else 3000
+    n = 120 if tier == "quick" else 3000
     for k in range(n):
         dom = ParetoDominance() if k % 2 == 0 else EpsilonDominance([0.1, 0.1])
         a = Archive(dom)
         m = rng.randint(1, 2)
         hist = []
-        for _ in range(rng.randint(0, 7)):
-            c = [rng.choice(GRID[:4]) for _ in range(m)] + [rng.choice([0, 0, 0, 1, 2])]
+        style = k % 4      # 0/1: grid costs; 2: designs share a few vectors (re-evaluated designs with different costs);
+        #                   3: cost vectors that differ only slightly (relative 1e-6) from earlier ones
+
+        def cost():
+            if style == 3 and hist and rng.random() < 0.6:
+                base = rng.choice(hist)
+                return [v * (1 + rng.choice([-1, 1]) * 1e-6) + rng.choice([0.0, 1e-9]) for v in base[:-1]] + [base[-1]]
+            scale = 1000.0 if style == 3 else 1.0
+            return [scale * rng.choice(GRID[1:4] if style == 3 else GRID[:4]) for _ in range(m)] + [rng.choice([0, 0, 0, 1, 2])]
+
+        def vec():
+            return [rng.choice([0.0, 1.0])] if style == 2 else None
+        for step in range(rng.randint(1, 8)):
+            # every addition of the history is a checked call (the archive carries over from one case to the next)
+            c = cost()
+            x = _mk_ind(c, vec())
+            yield {"call": lambda self, individual: self.add(individual), "args": {"self": a, "individual": x},
+                   "extra": {"acmp": lambda c_, p, q: c_.compare(p, q), "cmp_ok": lambda c_, p, q: True},
+                   "label": "%s|%r|%r|%r" % (type(dom).__name__, hist, c, x.vector)}
             hist.append(c)
-            a.add(_mk_ind(c))
-        c = [rng.choice(GRID[:4]) for _ in range(m)] + [rng.choice([0, 0, 0, 1, 2])]
-        x = _mk_ind(c)
-        yield {"call": lambda self, individual: self.add(individual), "args": {"self": a, "individual": x},
-               "extra": {"acmp": lambda c_, p, q: c_.compare(p, q), "cmp_ok": lambda c_, p, q: True},
-               "label": "%s|%r|%r" % (type(dom).__name__, hist, c)}
 
 
 @scenario("artap.individual:Individual.__eq__", bound="all pairs of vectors over a 3-value grid with n<=3, plus near-equal perturbations")
